@@ -210,19 +210,67 @@ def run(tier, v):
     cov = {"samples": []}
     rng = random.Random(vlib.seed() * 7919 + 19)
     vlib._specdir()
-    # 1. design, current variant, in the background (re-run below if the observation differs)
+    # scenarios from the spec (in the background while the harness is built and the variant is probed)
+    gbox = {}
+
+    def generate():
+        try:
+            gbox["g"] = vlib.tlc("ZmodemGen", "ZmodemGen_quick.cfg", timeout=1200, heap="2g", workers=4)
+        except Exception as e:
+            gbox["e"] = e
+    gth = threading.Thread(target=generate)
+    gth.start()
+    h = vlib.build_harness(["c19"])
+    res = {}
+
+    def early():
+        try:
+            out = os.path.join(vlib.scratch(), "c19early")
+            res["early"] = (vlib.run_driver(h, "c19_early", out, {"procs": 6, "attempts": 12 if quick else 40},
+                                            timeout=600, extra_env={"VERIF_SHARD_CRASH_OK": "1"}), out)
+        except Exception as e:
+            res["early"] = e
+
+    def f1probe():
+        # which variant does the code have?  (only a prediction for the design run below; the verdict on
+        # F1 comes from the validated scenario runs)
+        try:
+            pl = {"id": 0, "sig": "probe", "steps": [{"a": "hdr", "up": False, "veto": "none", "start": "nopath"},
+                                                    {"a": "quiet"}, {"a": "text"}]}
+            s0, files0, _ = run_plans(h, "c19probe", [pl], True, 1)
+            ev = vlib.read_ndjson(files0[0]) if files0 else []
+            res["f1probe"] = any(e["e"] == "inpdone" and e["disp"] == "drop" for e in ev)
+        except Exception as e:
+            res["f1probe"] = e
+    pths = [threading.Thread(target=early), threading.Thread(target=f1probe)]
+    for t in pths:
+        t.start()
+    for t in pths:
+        t.join()
+    for k in ("early", "f1probe"):
+        if isinstance(res[k], Exception):
+            raise res[k]
+    es, eout = res["early"]
+    crashes = [open(os.path.join(eout, f)).read() for f in sorted(os.listdir(eout)) if f.endswith(".crash.txt")]
+    f0 = any("handleZmodemError" in txt for txt in crashes)
+    f1_pred = bool(res["f1probe"])
+    # 1. design, for the variant the code appears to have, in the background
     box = {}
     main_cfg = "Zmodem_quick.cfg" if quick else "Zmodem_thorough.cfg"
 
     def design():
         try:
-            box["r"] = vlib.tlc("Zmodem", main_cfg, timeout=3000, heap=HEAP, workers=8, coverage=not quick)
+            cfg = main_cfg if (f0 and f1_pred) else variant_cfg(main_cfg, f0, f1_pred, "Zmodem_pred.cfg")
+            box["r"] = vlib.tlc("Zmodem", cfg, timeout=3000, heap=HEAP, workers=8, coverage=not quick)
         except Exception as e:     # re-raised in the main thread
             box["e"] = e
     th = threading.Thread(target=design)
     th.start()
     # 2. scenarios from the spec
-    g = vlib.tlc("ZmodemGen", "ZmodemGen_quick.cfg", timeout=1200, heap="2g", workers=4)
+    gth.join()
+    if "e" in gbox:
+        raise gbox["e"]
+    g = gbox["g"]
     if not g["ok"]:
         raise vlib.Infra("ZmodemGen failed: %s\n%s" % (g["violated"], g["out"][-2000:]))
     gen = list({json.dumps(p, sort_keys=True): p for p in vlib.mbt_lines(g["out"])}.values())
@@ -250,36 +298,26 @@ def run(tier, v):
     no_h = [p for p in plans if p["steps"][0]["start"] == "nopath"]
     by_id = {p["id"]: p for p in plans}
     cov["signatures_run"] = len({p["sig"] for p in plans})
-    h = vlib.build_harness(["c19"])
-    res = {}
-
     def drive(name, ps, nohelper):
         try:
             res[name] = run_plans(h, "c19" + name, ps, nohelper, 64 if quick else 96)
         except Exception as e:
             res[name] = e
 
-    def early():
-        try:
-            out = os.path.join(vlib.scratch(), "c19early")
-            res["early"] = (vlib.run_driver(h, "c19_early", out, {"procs": 6, "attempts": 12 if quick else 40},
-                                            timeout=600, extra_env={"VERIF_SHARD_CRASH_OK": "1"}), out)
-        except Exception as e:
-            res["early"] = e
     ths = [threading.Thread(target=drive, args=("h", with_h, False)),
-           threading.Thread(target=drive, args=("n", no_h, True)),
-           threading.Thread(target=early)]
+           threading.Thread(target=drive, args=("n", no_h, True))]
     for t in ths:
         t.start()
     for t in ths:
         t.join()
-    for k in ("h", "n", "early"):
+    for k in ("h", "n"):
         if isinstance(res[k], Exception):
             raise res[k]
     # 3. judge
     runs = events = 0
     nrej = 0
     stuck_all, confirmed_all, hangs_all = {}, {}, []
+    first_file = None
     for name, nohelper in (("h", False), ("n", True)):
         s, files, hangs = res[name]
         runs += s["runs"]
@@ -318,16 +356,8 @@ def run(tier, v):
     cov["runs_stuck_at_quiet"] = len(confirmed_all)
     cov["runs_helper_launched_after_stop"] = sum(1 for x in stuck_all.values() if x["late"])
     # early Ctrl-C probe
-    es, eout = res["early"]
-    crashes = []
-    for f in sorted(os.listdir(eout)):
-        if f.endswith(".crash.txt"):
-            txt = open(os.path.join(eout, f)).read()
-            crashes.append(txt)
-    f0 = False
     for txt in crashes:
-        if "handleZmodemError" in txt and ("nil pointer" in txt or "panic" in txt):
-            f0 = True
+        if "handleZmodemError" in txt:
             m = re.search(r"panic: .*", txt)
             v.violation(KEY_F0, "Ctrl-C right after the start header, before handleZmodemEvent assigned z.serverIn: the process "
                         "dies (%s) in sendInput -> stopTransferringFiles -> handleZmodemError" % (m.group(0) if m else "panic"),
@@ -342,7 +372,7 @@ def run(tier, v):
     if "e" in box:
         raise box["e"]
     r = box["r"]
-    if not (f0 and f1):
+    if f1 != f1_pred:
         r = vlib.tlc("Zmodem", variant_cfg(main_cfg, f0, f1, "Zmodem_obs.cfg"), timeout=3000, heap=HEAP, workers=8)
     if not r["ok"]:
         raise vlib.Infra("Zmodem (variant %s) violates %s on the design level: %s\n%s"
